@@ -11,6 +11,7 @@ import (
 	"time"
 
 	"github.com/IrineSistiana/mosproxy/verif/internal/clock"
+	"github.com/IrineSistiana/mosproxy/verif/internal/gen"
 	"github.com/IrineSistiana/mosproxy/verif/internal/fakeup"
 	"github.com/miekg/dns"
 )
@@ -177,7 +178,13 @@ func runC19(c *Ctx) {
 						if k.group == "subnets" {
 							ip = fmt.Sprintf("127.9.%d.7", 10+i%8) // group M, eight /24s
 						}
-						r := h.query(b, listeners[(i+ki)%len(listeners)], ip, "", k.name, dns.TypeA, dns.ClassINET, "burst", "")
+						// (every other hit spells the name in its own mix of upper and lower case: one
+						// question, one cache entry, one refresh)
+						qn := k.name
+						if i%2 == 1 {
+							qn = c03RandCase(gen.New(c.Seed, "c19case/"+k.name, i), k.name)
+						}
+						r := h.query(b, listeners[(i+ki)%len(listeners)], ip, "", qn, dns.TypeA, dns.ClassINET, "burst", "")
 						hm.Lock()
 						k.hits = append(k.hits, r)
 						hm.Unlock()
